@@ -5,6 +5,8 @@
 (*                                                                          *)
 (* An abstract line is a record of field classes and values                 *)
 (*   xc/x yc/y    "int" | "frac" (x plus a fraction, truncated toward zero) *)
+(*                | "f32up" (a text that only SINGLE precision rounds to x:  *)
+(*                255.9999999 is 256, 131072.001 is the limit itself)        *)
 (*                | "bad" (garbage, NaN, beyond +-131072)                   *)
 (*   tc/t         start time "ok" | "bad"                                   *)
 (*   tyc/ty       type field "num" | "bad"; ty is the integer               *)
@@ -48,7 +50,7 @@ KindOf(ty) == IF Bit2(ty, 1) THEN "circle"
               ELSE "unknown"
 
 Has(ln, k) == ln.nf >= k
-NumOk(c) == c \in {"int", "frac"}
+NumOk(c) == c \in {"int", "frac", "f32up"}
 
 \* ---- accept / reject -------------------------------------------------------
 BankRes(ln, only) == ReadBank(Bank0, ln.bi, only)
@@ -166,6 +168,9 @@ AlphaCombo(z) == <<Circle(1, 0), Circle(5, 0), Circle(21, 0), Circle(17, 0), Cir
 \* (c) numeric classes
 AlphaNum(z) ==
     <<[Circle(1, 0) EXCEPT !.xc = "frac", !.x = 256, !.yc = "frac", !.y = -5],
+      [Circle(1, 0) EXCEPT !.xc = "f32up", !.x = 256, !.yc = "f32up", !.y = 192], [Circle(1, 0) EXCEPT !.xc = "f32up", !.x = 131072],
+      [Circle(1, 0) EXCEPT !.yc = "f32up", !.y = -131072], [Circle(1, 0) EXCEPT !.xc = "f32up", !.x = -7, !.yc = "f32up", !.y = 1],
+      [Spinner EXCEPT !.xc = "f32up", !.x = 77], [Hold EXCEPT !.xc = "f32up", !.x = 300],
       [Circle(1, 0) EXCEPT !.x = 131072, !.y = -131072],
       [Circle(1, 0) EXCEPT !.xc = "bad"], [Circle(1, 0) EXCEPT !.yc = "bad"], [Circle(1, 0) EXCEPT !.tc = "bad"],
       [Circle(1, 0) EXCEPT !.sc = "bad"], [Circle(1, 0) EXCEPT !.nf = 4], [Circle(1, 0) EXCEPT !.nf = 5],
